@@ -908,6 +908,9 @@ LoadDocs ==
    cf |-> DocOf("V50", <<DNamed("AR-PACKAGE", "z", <<>>), PkgA(<<DescX("y")>>)>>),
    \* mixed content: an inline element (to be merged with the XREF-TARGET that cd has in the same L-2)
    mt |-> DocOf("V50", <<PkgA(<<DN("DESC", <<DX("L-2", <<[n |-> "L", v |-> EVal("EN")]>>, <<DL("TT", SVal("x"))>>)>>)>>)>>),
+   \* a kind clash (k2 against k1 at /a10/s) behind a new package whose path /a1 is a string prefix, but no ancestor, of /a10
+   k1 |-> DocOf("V50", <<DNamed("AR-PACKAGE", "a10", <<Els(<<Sys("s")>>)>>)>>),
+   k2 |-> DocOf("V50", <<DNamed("AR-PACKAGE", "a1", <<>>), DNamed("AR-PACKAGE", "a10", <<Els(<<DNamed("I-SIGNAL", "s", <<>>)>>)>>)>>),
    \* one path defined as two kinds of elements inside one file
    dupk |-> DocOf("V50", <<PkgA(<<Els(<<Sys("s"), DNamed("I-SIGNAL", "s", <<>>)>>)>>)>>),
    \* an element that the file's own version does not have (accepted by a lenient load only), next to other children
